@@ -985,6 +985,8 @@ fn cmd_random(args: &[String]) {
     let minlen: usize = args.get(3).map(|s| s.parse().unwrap()).unwrap_or(50);
     let maxlen: usize = args.get(4).map(|s| s.parse().unwrap()).unwrap_or(400);
     let with_addt = std::env::var("CTXAPI_ADDT").map(|v| v != "0").unwrap_or(true);
+    // CTXAPI_ADDT_BAD=0 leaves out add_node_with_type with an INVALID supplied type
+    let addt_bad = std::env::var("CTXAPI_ADDT_BAD").map(|v| v != "0").unwrap_or(true);
     let names: Vec<String> = ["a", "b", "c"].iter().map(|s| s.to_string()).collect();
     let mut total = 0u64;
     for h in 0..nh {
@@ -1007,7 +1009,7 @@ fn cmd_random(args: &[String]) {
                 }
             } else {
                 // an invalid SUPPLIED type (add_node_with_type) is only tried in every 8th history
-                d.random_call(with_addt, h % 8 == 5)
+                d.random_call(with_addt, addt_bad && h % 8 == 5)
             };
             let mut cj = call_json(&call);
             let (res, msg, lty) = apply(&mut d.w, &call);
